@@ -12,12 +12,19 @@ tie:     the same model, run natively (drv_c14), against (a) the C functions thr
 search:  a plain Python list implementing the documented behaviour, asserted on the real
          code after every operation; thorough tier replays the histories under ASan+UBSan.
 """
-import ctypes, json, math, os, struct, subprocess, sys, tempfile
+import ctypes, json, math, os, struct, subprocess, sys, tempfile, time
 sys.path.insert(0, os.path.dirname(os.path.abspath(__file__)))
 from common import *
 
 DIGEST_MOD = 2305843009213693951
 RESET_TREE = False   # set from the probes: does remove_all delete the tree?
+PROGRESS = None      # file the child appends its current history to (read by the parent after a crash/hang)
+
+
+def progress(obj):
+    if PROGRESS is not None:
+        PROGRESS.write(json.dumps(obj) + "\n")
+        PROGRESS.flush()
 BOX = 16.0
 
 MSG_KINDS = [
@@ -441,6 +448,38 @@ def probe_variant(rebound, c):
     return res
 
 
+# ----------------------------------------------------------------------------- MERCURIUS private state (outside the Lean model: search only)
+def mercurius_probe(c, rebound):
+    """an invalid removal must leave the integrator's per-particle arrays alone as well"""
+    import warnings
+    sim = rebound.Simulation()
+    sim.add(m=1.); sim.add(m=1e-3, a=1.); sim.add(m=2e-3, a=2.); sim.add(m=3e-3, a=3.5)
+    sim.integrator = "mercurius"
+    sim.dt = 0.01
+    sim.integrate(0.05)
+    rim = sim.ri_mercurius
+    n = sim.N
+    if rim._N_allocated_dcrit < n:
+        return
+    before = [rim._dcrit[i] for i in range(n)]
+    for idx in (n + 3, -1):
+        with warnings.catch_warnings():
+            warnings.simplefilter("ignore")
+            try:
+                sim.remove(index=idx)
+                out = "removed"
+            except RuntimeError as e:
+                out = msg_kind(str(e))
+        after = [rim._dcrit[i] for i in range(sim.N)]
+        c.count(("mercurius-invalid-remove", idx < 0))
+        if out != "errRange" or sim.N != n or after != before:
+            c.violation("F4e:invalid-remove-under-mercurius-shifts-dcrit",
+                        "MERCURIUS after integrate(0.05), sim.remove(index=%d) with N=%d: answered %s, N=%d, dcrit %s -> %s" % (
+                            idx, n, out, sim.N, ["%.3g" % x for x in before], ["%.3g" % x for x in after]),
+                        {"index": idx, "dcrit_before": before, "dcrit_after": after})
+            before = after
+
+
 # ----------------------------------------------------------------------------- history generator
 def gen_cfg(rng, python_api=False):
     tree = rng.choice(["none", "none", "none", "gravity", "collision", "linetree"])
@@ -539,6 +578,7 @@ def run_history(c, rebound, cfg, nops, python_api, stats, lines, expect, meta, h
     expect.append(fmt_state("done", st))
     meta.append((hid, -1, ("new",), cfg))
     history = []
+    progress({"history": hid, "python_api": python_api, "cfg": cfg})
     ops_planned = [None] * cfg["bulk"] + [None] * nops
     for step_i in range(len(ops_planned)):
         if fixed_ops is not None:
@@ -548,6 +588,7 @@ def run_history(c, rebound, cfg, nops, python_api, stats, lines, expect, meta, h
         if python_api and op[0] == "setnvar":
             op = gen.add_op(st)
         history.append(op)
+        progress({"op": op})
         shape = shape_of(op, st)
         before = st
         out, msgs = sim.apply(op)
@@ -632,6 +673,41 @@ def run_history(c, rebound, cfg, nops, python_api, stats, lines, expect, meta, h
 
 
 # ----------------------------------------------------------------------------- reb_hash
+def murmur3_ref(data, seed=1983):
+    """MurmurHash3_x86_32 as published (Appleby, public domain), written from the specification; the
+    oracle for `reb_hash` values, which are persisted in archives and therefore must not drift"""
+    M = 0xFFFFFFFF
+    h = seed
+    n = len(data) // 4
+    for i in range(n):
+        k = int.from_bytes(data[4 * i:4 * i + 4], "little")
+        k = (k * 0xcc9e2d51) & M
+        k = ((k << 15) | (k >> 17)) & M
+        k = (k * 0x1b873593) & M
+        h ^= k
+        h = ((h << 13) | (h >> 19)) & M
+        h = (h * 5 + 0xe6546b64) & M
+    t = data[4 * n:]
+    k = 0
+    if len(t) == 3:
+        k ^= t[2] << 16
+    if len(t) >= 2:
+        k ^= t[1] << 8
+    if len(t) >= 1:
+        k ^= t[0]
+        k = (k * 0xcc9e2d51) & M
+        k = ((k << 15) | (k >> 17)) & M
+        k = (k * 0x1b873593) & M
+        h ^= k
+    h ^= len(data)
+    h ^= h >> 16
+    h = (h * 0x85ebca6b) & M
+    h ^= h >> 13
+    h = (h * 0xc2b2ae35) & M
+    h ^= h >> 16
+    return h
+
+
 def hash_cases(rng, n):
     fixed = [b"", b"a", b"ab", b"abc", b"abcd", b"abcde", b"planet1", b"earth", b"Sun", b"hello",
              b"\x80", b"\xff\xff\xff\xff", b"\xff\xfe\xfd", b"\x7f" * 7, b"a" * 255, b"a" * 256, b"a" * 1023,
@@ -693,7 +769,13 @@ class MemReplay:
 
     def run(self, histories, timeout=1500):
         text = replay_text(histories)
-        env = dict(os.environ, ASAN_OPTIONS="detect_leaks=0:halt_on_error=1", UBSAN_OPTIONS="print_stacktrace=1:halt_on_error=1")
+        # qsort(NULL, 0, ..) in reb_update_particle_lookup_table (lookup in a simulation that never had a table) is flagged by
+        # UBSan through glibc's nonnull attribute; it touches no memory and is reported in the notes, not as a violation
+        supp = os.path.join(os.path.dirname(self.exe), "ubsan.supp")
+        with open(supp, "w") as f:
+            f.write("nonnull-attribute:reb_update_particle_lookup_table\n")
+        env = dict(os.environ, ASAN_OPTIONS="detect_leaks=0:halt_on_error=1",
+                   UBSAN_OPTIONS="print_stacktrace=1:halt_on_error=1:suppressions=" + supp)
         try:
             q = subprocess.run(self.cmd, input="\n".join(text) + "\nend\n", capture_output=True, text=True, env=env, timeout=timeout)
         except subprocess.TimeoutExpired:
@@ -733,6 +815,11 @@ def run(c):
     vline = "variant %d %d %d %d %d" % (pv["rangeFirst"], pv["treeFirst"], pv["lastClamp"], pv["unsortedClamp"], pv["resetTree"])
     global RESET_TREE
     RESET_TREE = pv["resetTree"]
+    c.cov["full_strength_theorems_apply_to_this_source"] = all(c.cov["variant_detected"].values())
+    c.cov["theorem_scope"] = ("the source under test is Variant.repaired: c14_run_refines, c14_invalid_unchanged, c14_active_le_N hold of it without exclusions"
+                              if all(c.cov["variant_detected"].values()) else
+                              "the source under test lacks some F4/F18 repairs: the *_partial theorems (call shapes excluded) and the *_fails_current "
+                              "counter-examples describe it; the full-strength theorems describe the source with fixes/F4.diff applied")
     c.log("source variant:", c.cov["variant_detected"])
 
     ok = c.prove(["RV.Props.C14"])
@@ -741,9 +828,9 @@ def run(c):
     stats = dict(ops={}, outs={}, maxN=0, growth={}, dup_removals=0, dup_lookups=0, zero_lookups=0,
                  deviations={}, shapes_clean={}, odd_outs=[])
     lines, expect, meta = [vline], ["variant-set"], [(-1, -1, ("variant",), None)]
-    n_c = 600 if c.thorough else 90
-    n_py = 300 if c.thorough else 45
-    nops = 80 if c.thorough else 60
+    n_c = 600 if c.thorough else 160
+    n_py = 300 if c.thorough else 80
+    nops = 80 if c.thorough else 70
     histories = []
     for h in range(n_c):
         cfg = gen_cfg(c.rng)
@@ -777,7 +864,7 @@ def run(c):
     # ---- model vs implementation, line by line
     c.log("running %d model lines through drv_c14" % len(lines))
     got = run_driver(exe, lines)
-    ndis, first, hint_stat = 0, None, {}
+    ndis, first, hint_stat, alloc_diff = 0, None, {}, 0
     if len(got) != len(lines):
         c.corr_break("driver returned %d lines for %d ops" % (len(got), len(lines)))
     else:
@@ -791,10 +878,18 @@ def run(c):
             hs = gm[1] if len(gm) == 2 else "?"
             hint_stat[hs] = hint_stat.get(hs, 0) + 1
             if gm[0] != e or hs == "bad":
+                # a different growth policy (N_allocated, and with it the unused slots) is not a bookkeeping
+                # error as long as N <= N_allocated (asserted by the search) and the memory replay is clean
+                ta, tb = gm[0].split(), e.split()
+                if hs != "bad" and len(ta) == len(tb) and len(ta) >= 9 and ta[:3] == tb[:3] and ta[4:8] == tb[4:8] \
+                        and ta[3] != tb[3] and int(tb[1]) <= int(tb[3]):
+                    alloc_diff += 1
+                    continue
                 ndis += 1
                 skip_hid = mt[0]          # one disagreement per history (the rest follows from it)
                 if first is None:
                     first = {"history": mt[0], "step": mt[1], "op": mt[2], "model": g[:600], "impl": e[:600], "line": l[:300]}
+    c.cov["allocation_policy_differences"] = alloc_diff
     c.cov["model_lines_compared"] = len(lines)
     c.cov["histories_disagreeing"] = ndis
     c.cov["hint_status"] = hint_stat
@@ -816,6 +911,9 @@ def run(c):
             if nh == 1:
                 c.corr_break("reb_hash: model %s, C %d on bytes %s" % (m, cv, b.hex()), {"bytes": b.hex(), "model": m, "c": cv})
         cut = b.split(b"\x00")[0]
+        if murmur3_ref(cut) != cv:
+            c.violation("C14:reb_hash-is-not-murmur3-seed-1983", "reb_hash(%r) = %d, MurmurHash3_x86_32(seed 1983) = %d" % (
+                cut, cv, murmur3_ref(cut)), {"bytes": b.hex(), "c": cv, "reference": murmur3_ref(cut)})
         if all(x < 0x80 for x in cut) and b"\x00" not in b:
             pv_ = rebound.hash(cut.decode("ascii")).value
             if pv_ != cv:
@@ -835,6 +933,8 @@ def run(c):
             qe.append(str(int(sim.particles[k].m) - 1))
         except AttributeError:
             qe.append("err")
+        except Exception as ex:
+            qe.append("exc:" + type(ex).__name__)
         want = str(list(range(npart))[k]) if -npart <= k < npart else "err"
         if qe[-1] != want:
             c.violation("C14:py-index", "sim.particles[%d] with N=%d gives %s, a list gives %s" % (k, npart, qe[-1], want), {"k": k, "N": npart})
@@ -847,7 +947,10 @@ def run(c):
                 if not c.thorough and c.rng.chance(0.6):
                     continue
                 nsl += 1
-                got_ = [int(p.m) - 1 for p in sim.particles[slice(a, b, s)]]
+                try:
+                    got_ = [int(p.m) - 1 for p in sim.particles[slice(a, b, s)]]
+                except Exception as ex:
+                    got_ = ["exc:" + type(ex).__name__]
                 want = list(range(npart))[slice(a, b, s)]
                 ql.append("pyslice %d %s %s %d" % (npart, "N" if a is None else a, "N" if b is None else b, 1 if s is None else s))
                 qe.append(",".join(str(x) for x in got_) or "-")
@@ -868,6 +971,8 @@ def run(c):
     nb = sim.N
     del sim.particles[0]
     c.cov["del_particles_item_is_noop"] = (sim.N == nb)
+
+    mercurius_probe(c, rebound)
 
     c.cov["op_histogram"] = stats["ops"]
     c.cov["outcome_histogram"] = stats["outs"]
@@ -904,10 +1009,96 @@ def run(c):
             c.violation("F18a:remove_all-keeps-tree", "300 particles in a collision-tree simulation, reb_simulation_remove_all_particles, then add: "
                         "the tree still refers to the freed particle array and reb_tree_add_particle_to_cell reads/writes outside the particle storage: "
                         + res["report"][:300].replace("\n", " | "), {"cfg": wcfg, "ops": "add x300, rmall, add x40", "report": res["report"]})
+        # F4f witness: MERCURIUS, integrate (allocates dcrit), remove everything, remove once more
+        wcfg = dict(tree="none", box=False, boundary="none", integrator="mercurius")
+        wops = [("add", 1, 11, 0), ("add", 2, 12, 0), ("add", 3, 13, 0), ("integrate", 3),
+                ("rm", 0, 1), ("rm", 0, 1), ("rm", 0, 1), ("rm", 0, 1), ("add", 4, 14, 0)]
+        res = mr.run([(wcfg, wops)], timeout=300)
+        c.cov["memory_replay_empty_mercurius_witness"] = {"clean": not res["bad"], "answers": res["answers"]}
+        if res["bad"]:
+            c.violation("F4f:remove-from-empty-mercurius-simulation-overruns-dcrit",
+                        "MERCURIUS: 3 particles, 3 steps, remove all three, then remove(index=0) from the empty simulation: the dcrit shift loop runs "
+                        "i < N-1 with N = 0 (unsigned) and reads/writes far beyond the array (SIGSEGV): " + res["report"][:300].replace("\n", " | "),
+                        {"cfg": wcfg, "ops": wops, "report": res["report"]})
     except Infra as e:
         c.cov["memory_replay"] = {"error": str(e)[:500]}
         c.broken.append("memory replay could not run: " + str(e)[:300])
 
 
+def run_guarded(c):
+    try:
+        run(c)
+    except (Infra, subprocess.TimeoutExpired):
+        raise
+    except Exception as ex:
+        import traceback
+        tb = traceback.format_exc()
+        c.violation("C14:unexpected-exception:" + type(ex).__name__,
+                    "the real code answered in a way the checker has no case for: %s: %s" % (type(ex).__name__, str(ex)[:200]),
+                    {"traceback": tb[-3000:]})
+
+
+def child_main():
+    global PROGRESS
+    PROGRESS = open(os.environ["C14_PROGRESS"], "w")
+    main("C14", run_guarded)
+
+
+def parent_main():
+    """the code under test runs in-process (ctypes): a segfault or an endless loop in it must end as a
+    VIOLATION with a replay file, not as a dead checker"""
+    tier = "quick"
+    for i, a in enumerate(sys.argv):
+        if a == "--tier" and i + 1 < len(sys.argv):
+            tier = sys.argv[i + 1]
+    seed = int(os.environ.get("VERIF_SEED", "1"))
+    fd, prog = tempfile.mkstemp(prefix="c14prog.", dir=os.environ.get("VERIF_TMP", "/tmp"))
+    os.close(fd)
+    env = dict(os.environ, C14_CHILD="1", C14_PROGRESS=prog)
+    limit = 1700 if tier == "thorough" else 170
+    t0 = time.time()
+    try:
+        p = subprocess.run([sys.executable, "-u", os.path.abspath(__file__)] + sys.argv[1:], env=env, timeout=limit)
+        rc, why = p.returncode, None
+        if rc < 0 or rc > 2:
+            why = "the checker process died with %s while executing the operation below on the real code" % (
+                "signal %d" % -rc if rc < 0 else "exit code %d" % rc)
+    except subprocess.TimeoutExpired:
+        rc, why = None, "the operation below did not return within %d s (endless loop in the code under test)" % limit
+    if why is None:
+        os.remove(prog)
+        sys.exit(rc)
+    hist, cur = [], None
+    try:
+        for l in open(prog):
+            o = json.loads(l)
+            if "history" in o:
+                cur, hist = o, []
+            elif "op" in o:
+                hist.append(o["op"])
+    except Exception:
+        pass
+    os.remove(prog)
+    path = os.path.join(ROOT, "replays", "C14-%d-crash.json" % seed)
+    os.makedirs(os.path.dirname(path), exist_ok=True)
+    with open(path, "w") as f:
+        json.dump({"property": "C14", "key": "C14:crash-or-hang", "what": why, "seed": seed, "tier": tier,
+                   "replay": {"history": cur, "ops": hist, "last_op": hist[-1] if hist else None}}, f, indent=1)
+    os.makedirs(os.path.join(ROOT, "evidence"), exist_ok=True)
+    with open(os.path.join(ROOT, "evidence", "C14.json"), "w") as f:
+        json.dump({"property_id": "C14", "tier": tier, "seed": seed, "level": "proof", "violations": 1,
+                   "wall_s": round(time.time() - t0, 2), "assumptions": [],
+                   "coverage": {"evaluations": len(hist), "distinct_nontrivial": 0, "rule": "aborted: " + why,
+                                "samples": [{"last_op": hist[-1] if hist else None, "history": cur}],
+                                "obligations": 0, "discharged": 0, "checker_cmd": "", "trusted_base": []}}, f, indent=1)
+    print("[C14] FAILING INPUT: %s: %s (history %s, %d operations in)" % (why, hist[-1] if hist else None,
+                                                                       (cur or {}).get("cfg"), len(hist)))
+    print("VIOLATION property=C14 replay=%s" % os.path.relpath(path, ROOT))
+    sys.exit(1)
+
+
 if __name__ == "__main__":
-    main("C14", run)
+    if os.environ.get("C14_CHILD") == "1":
+        child_main()
+    else:
+        parent_main()
